@@ -70,6 +70,7 @@ type Interp struct {
 	errObjs             map[string]*Object
 	wraps               map[*Object]Iface
 	initTolerant        bool
+	blockingIsViolation bool
 	poisoned            map[*ssa.Global]bool
 	lastNow             *Term
 	typeErrs            map[string]Value
@@ -1623,6 +1624,9 @@ func (in *Interp) blocked(what string) {
 		in.onBlock = nil
 		in.invoke(in.top, f, nil, nil)
 		panic(pathEnd{"ok", "blocked after onBlock: " + what})
+	}
+	if in.blockingIsViolation {
+		in.p.ex.report(&Violation{Harness: in.h.Name, Label: "blocks forever: " + what + " @ " + in.top.fn.String(), Kind: "blocked", Msg: what, Model: in.p.ex.modelNow(in.p), Trace: in.stackTrace()})
 	}
 	panic(pathEnd{"blocked", what})
 }
